@@ -480,17 +480,21 @@ KindsBQuick == {"function", "bound_method", "callable_object", "class", "generat
                 "artifact_dnc", "bo_print", "c_bound", "unbound_method"}
 KindsB == IF Q THEN KindsBQuick ELSE {k \in AllKinds : Kinds[k].keys = {"k", "z"}}
 KindsBDeep == IF Q THEN {} ELSE {"function", "bound_method", "class", "bo_print"}   \* every depth-2 chain
-ChainsB(k) == IF k \in KindsBDeep THEN Chains(LayerSetAll, LayerSetAll) ELSE Chains(LayerSetAll, LayerSetSmall)
 KindOptsB == {<<k, "o_u0i1">> : k \in KindsB}
                \cup {<<k, o>> : k \in IF Q THEN {"function"} ELSE KindsBQuick, o \in {"s_r0", "o_u1i1"}}
-SweepB == UNION {{Desc(ko[1], "user", ls, n, s[1], s[2], FALSE, ko[2], "UNSPECIFIED", FALSE, "none", 1, "same") :
-                    ls \in ChainsB(ko[1]), n \in {"flat", "kept"}, s \in AllShapes} : ko \in KindOptsB}
+SweepBRaw == {Desc(ko[1], "user", ls, n, s[1], s[2], FALSE, ko[2], "UNSPECIFIED", FALSE, "none", 1, "same") :
+                ko \in KindOptsB, ls \in Chains(LayerSetAll, IF Q THEN LayerSetSmall ELSE LayerSetAll),
+                n \in {"flat", "kept"}, s \in AllShapes}
+DeepOK(x) == Len(x.layers) = 2 =>
+               x.kind \in KindsBDeep \/ (x.layers[1] \in LayerSetSmall /\ x.layers[2] \in LayerSetSmall)
 
 (* F: conversion failures and their memory *)
 KindsFQuick == {"function", "lambda", "closure", "bound_method", "class_method", "static_method",
                 "callable_object", "callable_slots", "decorated", "generator", "method_nt_sub",
                 "fn_nosource", "fn_forelse", "async_function", "class", "artifact_dnc", "bo_len"}
-KindsF == IF Q THEN KindsFQuick ELSE AllKinds
+KindsF == IF Q THEN KindsFQuick
+          ELSE KindsFQuick \cup {"exec_function", "callable_native", "lru_cached"}
+                 \cup {k \in AllKinds : Kinds[k].code = "py" /\ Kinds[k].bi = "no" /\ Kinds[k].unsup = "no" /\ ~Kinds[k].art}
 KindsF2 == IF Q THEN {"function", "lambda", "bound_method", "callable_object"} ELSE KindsFQuick
 FaultsN == Faults \cup {"none"}
 (* F1: a fault during the first call; the second call repeats it with the same / other options *)
@@ -521,12 +525,13 @@ SweepR == {Desc(k, "user", ls, "kept", 1, s, TRUE, o, "ENABLED", FALSE, f, 1, "s
 InScope(x) == Admissible(x) /\ (Len(x.layers) < 2 => x.nest = "kept")
 
 (* (a disjunction rather than a union: TLC enumerates each sweep linearly; duplicates are one state) *)
-Init == /\ \/ d \in SweepP \/ d \in SweepM \/ d \in SweepB \/ d \in SweepF1 \/ d \in SweepF2 \/ d \in SweepF3 \/ d \in SweepF4 \/ d \in SweepR
+Init == /\ \/ d \in SweepP \/ d \in SweepM \/ (d \in SweepBRaw /\ DeepOK(d)) \/ d \in SweepF1 \/ d \in SweepF2 \/ d \in SweepF3 \/ d \in SweepF4 \/ d \in SweepR
         /\ InScope(d)
         /\ callno = 1 /\ pc = "cache" /\ lay = 1
         /\ pos = CallPos(d.npos) /\ kw = CallKw(d.kwsh)
         /\ cache = {} /\ ccache = {} /\ out = Out0 /\ hist = <<>>
 Spec == Init /\ [][Next]_vars
+InitOnly == pc = "never"     \* (as a CONSTRAINT: only the initial states are computed)
 
 (* ======================================================================= *)
 (* The property, on the model                                              *)
